@@ -141,6 +141,10 @@ pub fn observe_mode<G: ark_ec::AffineRepr + 'static>(shape: &Shape, vals: Box<dy
     out.push(("prover and verifier perform identical operation sequences on their transcripts".into(), same, format!("{} vs {} operations", p_ops.len(), v_ops.len())));
     out.push(("the transcripts handed back drive identical follow-up challenges".into(), ptail == vtail, String::new()));
     let clones: Vec<&Event> = log.iter().filter(|e| e.op == "clone" && e.obj == vobj).collect();
+    // position of the fork relative to the verifier's own operations: it must come after the last one
+    let last_main_op = log.iter().rposition(|e| e.obj == vobj && (e.op == "append" || e.op == "challenge") && e.label != b"verif-tail");
+    let fork_pos = log.iter().rposition(|e| e.op == "clone" && e.obj == vobj);
+    out.push(("the fork for the batching challenge is taken after every proof element has been absorbed (after the verifier's last transcript operation)".into(), matches!((last_main_op, fork_pos), (Some(a), Some(b)) if b > a), format!("{:?} {:?}", last_main_op, fork_pos)));
     let r_on_fork = clones.last().map(|c| {
         let fork = u64::from_le_bytes(c.data[..8].try_into().unwrap());
         log.iter().any(|e| e.obj == fork && e.op == "challenge" && e.label == b"r")
